@@ -285,7 +285,7 @@ def main():
                             run.violation(key + "/under-single-fault", {"config": cfg.describe(), "plan": {str(k): list(act)}, "detail": d})
     # histories in both directions between two devices that know each other through I-Am: what a peer announced must
     # not be 'improved' by traffic it sends later
-    for i in range((400 if thorough else 60) // (run.shard[1] if thorough else 1)):
+    for i in range((24000 if thorough else 60) // (run.shard[1] if thorough else 1)):
         history_case(run, rng, i)
     run.finish(require=("scenarios", "response_frames_compared", "request_frames_compared", "outcomes_consistent_with_limits", "history_requests"))
 
